@@ -15,23 +15,28 @@ const mergeDirName = "-merge"
 
 // Merge 立即执行 Merge 过程
 func (db *DB) Merge() error {
+	// 方法仅部分逻辑需加锁, 不应 defer
+	// 状态校验与 merge 状态更新必须在同一临界区内完成, 否则两次 merge 可能同时通过校验
+	db.mu.Lock()
+
 	// 校验数据是否为空
 	if db.activeFile == nil {
+		db.mu.Unlock()
 		return nil
 	}
 
 	// 校验是否满足 merge 条件
 	if err := db.mergeCheck(); err != nil {
+		db.mu.Unlock()
 		return err
 	}
-
-	// 方法仅部分逻辑需加锁, 不应 defer
-	db.mu.Lock()
 
 	// 更新 merge 状态
 	db.isMerging = true
 	defer func() {
+		db.mu.Lock()
 		db.isMerging = false
+		db.mu.Unlock()
 	}()
 
 	// 当前活跃文件同样加入参与 merge 的集合
